@@ -353,7 +353,14 @@ def inst_dask_int_index_then(kind):
         meta = np.empty((0,), dtype="i8")
         node = w.space.make(FAm.FromArray, leaf("ix", (n,), dtype="i8"), ((n,),), _symx_attrs=dict(_meta=meta, chunks=((n,),), _name="ix"))
         ix = w.fn(catalog.NC, "new_collection")(node)
-        if kind == "x[i,1]":
+        if kind == "x3[s,i,:]":
+            # a 0-d and a 1-d integer dask array in one index: the 0-d one drops its axis, the list then sits one axis earlier
+            x3 = catalog.source(w, E, "y", (1, 2, 1))
+            c3 = w.fn(catalog.NC, "new_collection")(x3.node)
+            snode = w.space.make(FAm.FromArray, leaf("s", (), dtype="i8"), (), _symx_attrs=dict(_meta=np.empty((), dtype="i8"), chunks=(), _name="s"))
+            s0 = w.fn(catalog.NC, "new_collection")(snode)
+            out, shape = c3[s0, ix, :], (n, x3.node.shape[2])
+        elif kind == "x[i,1]":
             out, shape = coll[ix, 1], (n,)
         elif kind == "x[1,i]":
             out, shape = coll[1, ix], (n,)
@@ -375,6 +382,11 @@ def inst_dask_int_index_then(kind):
         x = da.from_array(X, chunks=(2, 3))
         i = np.array([3, 0, 2])
         di = da.from_array(i, chunks=3)
+        if kind == "x3[s,i,:]":
+            Y = np.arange(60).reshape(3, 4, 5)
+            y = da.from_array(Y, chunks=(3, 2, 5))
+            got = y[da.from_array(np.array(1), chunks=()), da.from_array(np.array([3, 0, 2]), chunks=3), :].compute(scheduler="sync")
+            return dict(ok=bool(got.shape == (3, 5) and np.array_equal(got, Y[1, [3, 0, 2], :])), detail=f"y[s, i, :] on a (3, 4, 5) array: shape {got.shape}")
         got, want = {"x[i,1]": lambda: (x[di, 1], X[i, 1]), "x[1,i]": lambda: (x[1, di], X[1, i]),
                      "x[i][:,a:]": lambda: (x[di][:, 1:], X[i][:, 1:]), "x[i][::2]": lambda: (x[di][::2], X[i][::2])}[kind]()
         return dict(ok=bool(np.array_equal(got.compute(scheduler="sync"), want)), detail=f"{kind} on a (4, 5) array chunked (2, 3)")
@@ -512,7 +524,7 @@ def instances(tier):
         out.append(inst_refusal(kind))
     for kind in ("ravel()[i]", "reshape(n,1,1)[i,0]"):
         out.append(inst_reshape_then_int(kind))
-    for kind in ("x[i,1]", "x[1,i]", "x[i][:,a:]", "x[i][::2]"):
+    for kind in ("x[i,1]", "x[1,i]", "x[i][:,a:]", "x[i][::2]", "x3[s,i,:]"):
         out.append(inst_dask_int_index_then(kind))
     out.append(inst_vindex_bounds(1, 1))
     out.append(inst_vindex_bounds(2, 1))
